@@ -122,23 +122,23 @@ func (cache *HevcCache) getPalyloadType(payload []byte) (vps, sps, pps, islice b
 
 	switch naluType {
 	case hevc.NalStapInRtp: // 在RTP中的聚合（AP）
-		off := 2
-		// 循环读取被封装的NAL
-		for {
+		rest := payload[2:] // 跳过 AP NAL HDR
+		// 循环读取被封装的NAL；每次至少需要 2 字节长度 + 1 字节 NAL 头
+		for len(rest) > 2 {
 			// nal长度
-			nalSize := ((uint16(payload[off])) << 8) | uint16(payload[off+1])
+			nalSize := int(uint16(rest[0])<<8 | uint16(rest[1]))
 			if nalSize < 1 {
 				return
 			}
 
-			off += 2
-			naluType = (payload[off] >> 1) & 0x3f
+			naluType = (rest[2] >> 1) & 0x3f
 			cache.nalType(naluType, &vps, &sps, &pps, &islice)
-			off += int(nalSize)
 
-			if off >= len(payload) { // 扫描完成
+			rest = rest[2:]
+			if nalSize >= len(rest) { // 扫描完成(或包被截断)
 				break
 			}
+			rest = rest[nalSize:]
 		}
 		return
 	case hevc.NalFuInRtp: // 在RTP中的扩展,分片(FU)
